@@ -187,7 +187,7 @@ def upload_objects(o, tier, prefixes):
     o.cov["distinct_nontrivial"] += len(set(l.split(" -> ")[-1] for l in impl))
     o.notes.setdefault("profiles", {})["store-upload-objects"] = {
         "scenarios": len(impl), "max_sequence_length": depth, "stores": ["mem", "dir", "memdir"], "monitor_hits": len(mon),
-        "alphabet": ["Wa", "Wb", "Vbad", "Vgood", "Close", "CloseRaw", "Cancel"], "pins": ["none", "digest of one Wa chunk", "a digest no sequence produces"], "outcomes": len(set(l.split(" -> ")[-1] for l in impl))}
+        "alphabet": ["Wa", "Wb", "Vbad", "Vgood", "V512", "Close", "CloseRaw", "Cancel"], "pins": ["none", "digest of one Wa chunk", "a digest no sequence produces"], "outcomes": len(set(l.split(" -> ")[-1] for l in impl))}
     if not ok and not mon:
         o.violation("upload object harness failed: %s" % out[-1500:], {"kind": "harness", "output": out[-4000:]}, no_input=True)
         return
